@@ -24,7 +24,7 @@ SL = z3.BitVecVal(ord('/'), 8)
 
 BOUNDS = {
     'quick': dict(spec=6, imp=6, slashes=3),
-    'thorough': dict(spec=8, imp=7, slashes=4),
+    'thorough': dict(spec=7, imp=7, slashes=3),
 }
 
 KF_ROOT = 'C18/resolve/importer-directly-under-root'
